@@ -464,7 +464,16 @@ class Runner:
             c = self.client
             c.io = FakeIO(self)
             c._running = True
-            c._SecopClient__rxthread()      # the real loop, in this thread; ends with ConnectionClosed
+            # the real loop, in this thread; ends with ConnectionClosed.  Since the repair of the client's connect/disconnect
+            # races (C11) the worker threads are handed an event `registered` and wait for it: here it is set already
+            rx = c._SecopClient__rxthread
+            import inspect
+            gates = []
+            for _ in inspect.signature(rx).parameters:
+                ev = fc.Event()
+                ev.set()
+                gates.append(ev)
+            rx(*gates)
         finally:
             fc.time = saved
             try:
